@@ -471,9 +471,11 @@ pub fn run(rc: &mut RunCtx) {
                         }
                         if set.contains(&E::ConnClose) || set.contains(&E::Both) {
                             let want = format!("Err(ServerClosedConnection({},{:?}))", CODE, TEXT);
-                            // a client close that won the race legitimately returns Ok
-                            let client_close_raced = set.contains(&E::Ch0(2));
-                            if o.close != want && !(client_close_raced && serial.iter().any(|s| s.close == o.close)) {
+                            // (a client close in the same wake-up cannot have won: its Close is
+                            // still unwritten when the server's Close is read, and a broker that
+                            // has sent Close answers nothing else; the serial runs, where the
+                            // client's close completes first, are no excuse here)
+                            if o.close != want {
                                 res.violate("close_does_not_report_server_close", format!("batch {:?}: Connection::close() = {}, want {}", p, o.close, want));
                             }
                         }
